@@ -168,7 +168,55 @@ for kind in ("self_array", "mutual_array", "mutual_array_map"):
                              ("error", "http"), ("streaming_payload", "http")):
         RECURSION.append(("recursion.%s.%s.%s" % (kind, where, transport), rec_types(kind) + rec_method(where, transport)))
 
-FAMILIES = SCOPES + RECURSION
+
+
+def hsvc(name, parent=None, path="/x", canon=None, meths=(("show", "/"),), payload=False):
+    """A service with an HTTP block (Parent / Path / CanonicalMethod) and methods (name, route); route None = HTTP() without a
+    route, "nohttp" = no HTTP expression at all; payload = every method has a payload with attribute a (for {a} in paths)."""
+    h = ([N("Parent", parent)] if parent is not None else []) + ([N("Path", path)] if path is not None else []) + \
+        ([N("CanonicalMethod", canon)] if canon is not None else [])
+    ms = []
+    for mn, route in meths:
+        pl = [N("Payload", kids=[A("a", t="-")])] if payload else []
+        if route is None:
+            ms.append(N("Method", mn, kids=pl + [N("HTTP", v="plain")]))
+        elif route == "nohttp":
+            ms.append(N("Method", mn, kids=pl))
+        else:
+            ms.append(N("Method", mn, kids=pl + [N("HTTP", kids=[N("GET", route)])]))
+    return N("Service", name, kids=([N("HTTP", kids=h)] if h else []) + ms)
+
+
+CHILD = (("m1", "/"),)
+PARENTS = [
+    ("parent.ok", [hsvc("s1"), hsvc("s2", parent="s1", meths=CHILD)]),
+    ("parent.declared_later", [hsvc("s2", parent="s1", meths=CHILD), hsvc("s1")]),
+    ("parent.grandparent", [hsvc("s1"), hsvc("s2", parent="s1"), hsvc("s3", parent="s2", meths=CHILD)]),
+    ("parent.grandparent_declared_in_reverse", [hsvc("s3", parent="s2", meths=CHILD), hsvc("s2", parent="s1"), hsvc("s1")]),
+    ("parent.missing", [hsvc("s1", parent="nosuch")]),
+    ("parent.canonical_named", [hsvc("s1", canon="m1", meths=(("m1", "/x"), ("show", "/"))), hsvc("s2", parent="s1", meths=CHILD)]),
+    ("parent.canonical_missing", [hsvc("s1", canon="nosuch"), hsvc("s2", parent="s1", meths=CHILD)]),
+    ("parent.no_canonical_method", [hsvc("s1", meths=(("m1", "/"),)), hsvc("s2", parent="s1", meths=CHILD)]),
+    ("parent.canonical_without_http", [hsvc("s1", meths=(("show", "nohttp"),)), hsvc("s2", parent="s1", meths=CHILD)]),
+    # the canonical endpoint has an HTTP expression but no route: the child's base path cannot be computed (must be reported, not crash)
+    ("parent.canonical_without_route", [hsvc("s1", meths=(("show", None),)), hsvc("s2", parent="s1", meths=CHILD)]),
+    ("parent.canonical_without_route_child_first", [hsvc("s2", parent="s1", meths=CHILD), hsvc("s1", meths=(("show", None),))]),
+    ("parent.named_canonical_without_route", [hsvc("s1", canon="m1", meths=(("m1", None), ("show", "/"))), hsvc("s2", parent="s1", meths=CHILD)]),
+    ("parent.canonical_without_route_child_param_path", [hsvc("s1", meths=(("show", None),)), hsvc("s2", parent="s1", path="/x/{a}", meths=(("m1", "/x"),), payload=True)]),
+    ("parent.canonical_without_route_grandchild", [hsvc("s1", meths=(("show", None),)), hsvc("s2", parent="s1"), hsvc("s3", parent="s2", meths=CHILD)]),
+    ("parent.canonical_without_route_child_without_path", [hsvc("s1", meths=(("show", None),)), hsvc("s2", parent="s1", path=None, meths=CHILD)]),
+    ("parent.canonical_without_route_child_absolute_path", [hsvc("s1", meths=(("show", None),)), hsvc("s2", parent="s1", path="//abs/{a}", meths=CHILD, payload=True)]),
+    ("parent.canonical_without_route_child_absolute_route", [hsvc("s1", meths=(("show", None),)), hsvc("s2", parent="s1", meths=(("m1", "//abs/{a}"),), payload=True)]),
+    ("parent.child_without_path", [hsvc("s1"), hsvc("s2", parent="s1", path=None, meths=CHILD)]),
+    ("parent.child_absolute_path", [hsvc("s1"), hsvc("s2", parent="s1", path="//abs/{a}", meths=CHILD, payload=True)]),
+    ("parent.child_absolute_route", [hsvc("s1"), hsvc("s2", parent="s1", meths=(("m1", "//abs/{a}"),), payload=True)]),
+    ("parent.path_parameters", [hsvc("s1", path="/", meths=(("show", "/x/{a}"),), payload=True), hsvc("s2", parent="s1", meths=CHILD, payload=True)]),
+    ("parent.path_parameters_inherited_by_child_payload", [hsvc("s1", path="/", meths=(("show", "/x/{a}"),), payload=True), hsvc("s2", parent="s1", meths=CHILD)]),
+    ("parent.same_parameter_twice", [hsvc("s1", path="/x/{a}", meths=(("show", "/x/{a}"),), payload=True), hsvc("s2", parent="s1", path="/x/{a}", meths=(("m1", "/x/{a}"),), payload=True)]),
+    ("parent.two_children", [hsvc("s1"), hsvc("s2", parent="s1", meths=CHILD), hsvc("s3", parent="s1", path="/", meths=CHILD)]),
+]
+
+FAMILIES = SCOPES + RECURSION + PARENTS
 
 # one minimal program per defect class found by this check (the deviation that describes it in DSLProgram.tla)
 REPRODUCERS = [
@@ -217,6 +265,13 @@ REPRODUCERS = [
     ("crash.enum_default_uncomparable", [svc(meth(N("Payload", kids=[A("a", "Bytes", kids=[N("Enum", t="bytes"), N("Default", t="bytes")])])))]),
     ("crash.enum_default_uncomparable", [svc(meth(N("Payload", kids=[A("a", "Any", kids=[N("Enum", t="arr"), N("Default", t="arr")])])))]),
     ("crash.enum_default_uncomparable", [N("Type", "T1", kids=[A("a", "Any", kids=[N("Enum", t="mapval"), N("Default", t="mapval")])]), svc(meth(N("Result", t="T1")))]),
+    # third round: services that are their own ancestor
+    ("crash.parent_cycle", [hsvc("s1", parent="s1")]),
+    ("crash.parent_cycle", [hsvc("s1", parent="s2"), hsvc("s2", parent="s1")]),
+    ("crash.parent_cycle", [hsvc("s1", parent="s2"), hsvc("s2", parent="s3"), hsvc("s3", parent="s1")]),
+    ("crash.parent_cycle", [hsvc("s1", parent="s2", meths=CHILD), hsvc("s2", parent="s3"), hsvc("s3", parent="s2")]),
+    ("crash.parent_cycle", [hsvc("s1", parent="s2"), hsvc("s2", parent="s3", path=None), hsvc("s3", parent="s1")]),
+    ("crash.parent_cycle", [hsvc("s1", parent="s1", path="/x/{a}", meths=(("show", "/x/{a}"),), payload=True)]),
 ]
 
 
